@@ -20,7 +20,7 @@ def module():
         return sys.modules[MODULE]
     specs = [
         dict(slug='a', cls_name='HaTask', params=[dict(name='x')], run_params=['x'], kind='json'),
-        dict(slug='g:b', cls_name='HbTask', params=[dict(name='y', default=5)], run_params=['y'], kind='json',
+        dict(slug='g:b', cls_name='HbTask', params=[dict(name='y', default=5, name_in_config='y_in_cfg')], run_params=['y'], kind='json',
              inputs=[dict(ref='a', how='class')], pulls=['a']),
         dict(slug='c', cls_name='HcTask', kind='json', inputs=[dict(ref='a', how='name'), dict(ref='g:b', how='class')],
              registry_pulls=['a', 'b']),
@@ -30,7 +30,7 @@ def module():
     return mod
 
 
-MOCKVAL = {'a': {'mocked': 'a', 'n': [1, 2]}, 'b': 0, 'c': '', 'd': [None]}   # falsy mock values included
+MOCKVAL = {'a': {'mocked': 'a', 'n': [1, 2]}, 'b': 0, 'c': None, 'd': [None]}   # falsy and None mock values included
 
 
 def expected(v, given):
@@ -63,7 +63,7 @@ def one(job):
     if 'x' in given:
         params['x'] = 11
     if 'y' in given:
-        params['y'] = 7
+        params['y_in_cfg'] = 7
     label = f'TestChain(tasks={sorted(real)}, mock_tasks={sorted(mocks)}, parameters={params})'
     try:
         # mocks addressed by class or by full slug name, at random
@@ -100,6 +100,23 @@ def one(job):
             d = root / SLUG[m].replace(':', '/')
             if d.exists() and any(p.is_file() for p in d.rglob('*')):
                 bad.append(('mock-persisted', f'{label}: files were written for mocked task {SLUG[m]}: {list(d.rglob("*"))}'))
+        # forcing through the test chain must leave mocks what they are (supplied values, never run)
+        if mocks and real:
+            gen.RUNLOG.clear()
+            m0 = sorted(mocks)[0]
+            try:
+                tc.force(SLUG[m0])
+                for t in sorted(real):
+                    want = expected(case['out']['values'][t], given)
+                    got = tc[SLUG[t]].value
+                    if got != want:
+                        bad.append(('after-force', f'{label}: after chain.force({SLUG[m0]!r}) {SLUG[t]} yields {got!r}, expected {want!r}'))
+                if tc[SLUG[m0]].value != MOCKVAL[m0]:
+                    bad.append(('after-force', f'{label}: after chain.force the mock {SLUG[m0]} returns {tc[SLUG[m0]].value!r}'))
+            except Exception as e:  # noqa
+                bad.append(('after-force', f'{label}: chain.force({SLUG[m0]!r}) then reading values failed: {type(e).__name__}: {e}'))
+            if any(e['slug'] == SLUG[m] for e in gen.RUNLOG for m in mocks):
+                bad.append(('mock-run', f'{label}: a mocked task was run after forcing'))
         # create_test_task for single real tasks whose inputs are all mocked
         if len(real) == 1:
             t = real[0]
@@ -115,6 +132,49 @@ def one(job):
     finally:
         shutil.rmtree(root, ignore_errors=True)
     return idx, bad
+
+
+def lifetime(_):
+    """no base_dir given: results live in a temporary directory that must outlive the chain object while tasks do"""
+    import gc
+
+    from taskchain import Task
+    from taskchain.data import DirData
+    from taskchain.utils.testing import TestChain
+
+    class ExportTask(Task):
+        class Meta:
+            name = 'export'
+
+        def run(self) -> DirData:
+            d = self.get_data_object()
+            for i in range(3):
+                (d.dir / f'{i}.txt').write_text(str(i))
+            return d
+
+    class TotalTask(Task):
+        class Meta:
+            name = 'total'
+            input_tasks = [ExportTask]
+
+        def run(self, export) -> int:
+            return sum(int(p.read_text()) for p in sorted(export.iterdir()))
+
+    bad = []
+    tc = TestChain([ExportTask, TotalTask])
+    exp, tot = tc['export'], tc['total']
+    path = exp.value
+    del tc
+    gc.collect()
+    try:
+        files = sorted(p.name for p in path.iterdir())
+        if files != ['0.txt', '1.txt', '2.txt'] or tot.value != 3:
+            bad.append(('lifetime', f'with the default temporary directory, after the TestChain object was released the '
+                                    f'exported directory holds {files} and the dependent task yields {tot.value} (real chain: 3)'))
+    except Exception as e:  # noqa
+        bad.append(('lifetime', f'with the default temporary directory, after the TestChain object was released: '
+                                f'{type(e).__name__}: {e}'))
+    return bad
 
 
 def run(ctx):
@@ -133,6 +193,9 @@ def run(ctx):
             if cls == 'harness':
                 raise MachineryError(text)
             ctx.report(cls + ':' + json.dumps([sorted(c['real']), sorted(c['mocks']), sorted(c['given'])]), text, detail=c)
+    from ..procs import run_forked
+    for cls, text in run_forked(lifetime, None):
+        ctx.report(cls, text)
     for c in cases[:2] + cases[-2:]:
         ctx.sample(c)
     ctx.assumptions += ['mocks are addressed by class or by full slug name (the two documented forms)']
